@@ -563,6 +563,10 @@ def bessIv (v x : Float) : Float :=
         (if v == 0.0 then 1.0 else if v > 0.0 then 0.0 else gammaSign (v + 1.0) * inf)
       else if x.isInf then sgn * inf
       else if x > 30.0 && x > v * v then sgn * besselAsymp v x
+      else if v < 0.0 && x ≥ 50.0 && x ≥ v.abs then
+        -- I_{-ν}(x) = I_ν(x) + (2/π) sin(νπ) K_ν(x), and K_ν/I_ν ≲ e^{-2x + ν²/x} ≤ e^{-50} here: the ascending series of a
+        -- negative non-integer order overflows in its partial sums (prefactor ~ 1/Γ(v+1) tiny) although I_v is finite
+        sgn * besselSeries (-v) x
       else sgn * besselSeries v x
 
 def bessI0 (x : Float) : Float := bessIv 0.0 x
